@@ -1,6 +1,7 @@
 import SyneTune.Base.Wire
 import SyneTune.Model.HB
 import SyneTune.Model.SearcherState
+import SyneTune.Model.DyHPO
 /-
 Driver for stream `hb` (C03, C04, C13, C14, C15): run with
 `lake env lean --run SyneTune/Drivers/Hb.lean`.
@@ -56,6 +57,8 @@ def hbInit0 (j : Json) : Except String (Sched × Json) := do
               else if ty == "cost_promotion" then pure HBType.costPromotion
               else if ty == "rush_stopping" then pure HBType.rushStopping
               else if ty == "rush_promotion" then pure HBType.rushPromotion
+              -- `DyHPORungSystem` is a `PromotionRungSystem` (Model/DyHPO.lean); its `_suggest` is op `suggest_dy`
+              else if ty == "dyhpo" then pure HBType.promotion
               else throw s!"unsupported type {ty}")
   let mode ← modeOf (← getStr j "mode")
   let maxT ← getNat j "max_t"
@@ -94,6 +97,28 @@ def hbStep0 (s : Sched) (j : Json) : Except String (Sched × Json × List SCall)
         | .start t b m => jObj [("kind", Json.str "start"), ("trial", jNat t), ("bracket", jNat b), ("milestone", jNat m)]
         | .resume t f m => jObj [("kind", Json.str "resume"), ("trial", jNat t), ("from", jNat f), ("milestone", jNat m)]
       return (s', jObj ([("suggestion", sj), ("free", Json.bool fr), ("calls", jArr (calls.map jCall))] ++ jState s'), calls)
+  else if op == "suggest_dy" then
+    -- `_suggest` of type "dyhpo" (Model/DyHPO.lean): `sh` = the coin came up "try the SH rule", `hint` = level the SH
+    -- rule promoted from, `pick` = trial id the searcher's scoring returned (absent / null: new configuration)
+    let tid ← getNat j "trial_id"
+    let bracket ← getNat j "bracket"
+    let sh := getBoolD j "sh" false
+    let hint ← getOptNat j "hint"
+    let pick ← getOptNat j "pick"
+    -- the paused list handed to the searcher and the position of its pick in its rung (before the step; an SH
+    -- scan which does not promote leaves the rungs as they are)
+    let sys := s.mgr.systems[(s.mgr.sysFor bracket).1]?
+    let paused := (sys.map (·.pausedTrials)).getD []
+    let pickPos := match sys, pick with | some y, some t => y.pickPos t | _, _ => none
+    match s.suggestDy tid bracket sh hint pick with
+    | .error e => throw (errStr e)
+    | .ok (s', sg, calls, fr) =>
+      let sj := match sg with
+        | .start t b m => jObj [("kind", Json.str "start"), ("trial", jNat t), ("bracket", jNat b), ("milestone", jNat m)]
+        | .resume t f m => jObj [("kind", Json.str "resume"), ("trial", jNat t), ("from", jNat f), ("milestone", jNat m)]
+      return (s', jObj ([("suggestion", sj), ("free", Json.bool fr), ("calls", jArr (calls.map jCall)),
+                         ("paused", jArr (paused.map fun (t, p, r) => jArr [jNat t, jNat p, jNat r])),
+                         ("pick_pos", jOptNat pickPos)] ++ jState s'), calls)
   else if op == "result" then
     let tid ← getNat j "trial"
     let r ← getNat j "resource"
